@@ -71,7 +71,7 @@ def run(ctx):
         n = rnd.choice([2, 3, 4, 4, 5, 5, 6, 6])
         K = gen.rand_kripke(rnd, n, density=rnd.choice([0.2, 0.35, 0.5]))
         fam_iii.append({'logic': 'CTL', 'K': K, 'f': gen.rand_ctl(rnd, rnd.choice([2, 3, 4])),
-                        'naming': rnd.choice(['int', 'str', 'tuple']), 'shuf': rnd.randrange(1 << 30)})
+                        'naming': rnd.choice(['int', 'str', 'tuple', 'obj']), 'shuf': rnd.randrange(1 << 30)})
     # n-ary and/or (arity 3-4) over CTL operands
     pool = L0 + gen.ctl_q(M0)
     fam_n = []
@@ -84,13 +84,28 @@ def run(ctx):
             f = rnd.choice(gen.ctl_q([f], [rnd.choice(pool)]))
         fam_n.append({'logic': 'CTL', 'K': rnd.choice(cat), 'f': f})
     fam_iii = fam_iii + fam_n
+    # print collisions: an atom whose name is exactly the printed form of a subformula of the same formula (the
+    # labelling table and formula equality go through the printed form)
+    import pymc, synfam
+    fam_pc = []
+    subs = [('or', P, Q), ('and', P, Q), ('not', P), ('imp', P, Q), ('E', ('X', P)), ('A', ('U', P, Q)), ('E', ('G', Q)), ('or', P, ('not', Q), TR)]
+    for _ in range(600 if q else 12000):
+        sub = rnd.choice(subs)
+        name = str(synfam.build(sub, pymc.CTL))
+        twin = ('ap', name)
+        a, b = rnd.choice([lambda z: z, lambda z: ('E', ('F', z)), lambda z: ('not', z), lambda z: ('A', ('X', z))]), \
+            rnd.choice([lambda z: z, lambda z: ('A', ('G', z)), lambda z: ('E', ('U', Q, z)), lambda z: ('not', z)])
+        f = (rnd.choice(['and', 'or', 'imp']), a(twin), b(sub)) if rnd.random() < 0.5 else (rnd.choice(['and', 'or', 'imp']), a(sub), b(twin))
+        K = gen.rand_kripke(rnd, rnd.choice([2, 3, 4]))
+        K['L'] = [sorted(set(l) | ({name} if rnd.random() < 0.5 else set())) for l in K['L']]
+        fam_pc.append({'logic': 'CTL', 'K': K, 'f': f, 'mode': rnd.choice(['obj', 'ctls-obj'])})
     # (iv) the same formulas as text (CTL.Parser inside modelcheck) and as CTL* objects (cast inside)
     fam_iv = []
     for c in rnd.sample(fam_ii, min(len(fam_ii), 3000 if q else 40000)) + rnd.sample(fam_iii, 1000 if q else 20000):
-        fam_iv.append(dict(c, mode=rnd.choice(['text', 'ctls-obj'])))
+        fam_iv.append(dict(c, mode=rnd.choice(['text', 'ctls-obj', 'raw'])))
     memo_binding(ctx, [dict(c) for c in rnd.sample(fam_ii + fam_iii, 1500 if q else 20000)])
     mcfam.run_families(ctx, [('operand_complete', fam_i), ('scope', fam_ii), ('random', fam_iii),
-                             ('text_or_cast', fam_iv)])
+                             ('text_or_cast', fam_iv), ('print_collision', fam_pc)])
 
 
 def memo_binding(ctx, cases):
